@@ -98,12 +98,13 @@ func rewriteClock(src, dst, modDir string) error {
 		}
 	}
 	txt := string(b)
-	n := strings.Count(txt, "time.Now()") + strings.Count(txt, "time.Since(")
+	n := strings.Count(txt, "time.Now()") + strings.Count(txt, "time.Since(") + strings.Count(txt, "time.NewTicker(")
 	if n == 0 {
 		return fmt.Errorf("no clock reads found in %s", src)
 	}
 	txt = strings.ReplaceAll(txt, "time.Now()", "zzverif.Now()")
 	txt = strings.ReplaceAll(txt, "time.Since(", "zzverif.Since(")
+	txt = strings.ReplaceAll(txt, "time.NewTicker(", "zzverif.NewTicker(")
 	i := strings.Index(txt, "import (")
 	if i < 0 {
 		return fmt.Errorf("no import block in %s", src)
@@ -111,4 +112,109 @@ func rewriteClock(src, dst, modDir string) error {
 	txt = txt[:i+len("import (")] + "\n\t\"" + modPath + "/pkg/zzverif\"" + txt[i+len("import ("):]
 	txt += "\nvar _ = time.Second\n"
 	return os.WriteFile(dst, []byte(txt), 0644)
+}
+
+// rewriteHooks writes a copy of a source file in which every method of the receiver type `recv` starts with a hook
+// prologue: if the harness registered zzverif.Hooks["<recv>.<Method>"] with exactly the method's signature (without the
+// receiver), that function is called instead of the body. Used to replace the HTTP node client by scenario functions
+// in BOTH builds (symbolic and native replay); with no hook registered the body runs unchanged.
+func rewriteHooks(src, dst, modDir, recv string) error {
+	fset := token.NewFileSet()
+	f, err := parser.ParseFile(fset, src, nil, parser.ParseComments)
+	if err != nil {
+		return err
+	}
+	b, _ := os.ReadFile(src)
+	text := string(b)
+	type ins struct {
+		off  int
+		code string
+	}
+	var inserts []ins
+	exprText := func(e ast.Expr) string { return text[fset.Position(e.Pos()).Offset:fset.Position(e.End()).Offset] }
+	for _, d := range f.Decls {
+		fd, ok := d.(*ast.FuncDecl)
+		if !ok || fd.Recv == nil || fd.Body == nil || len(fd.Recv.List) != 1 {
+			continue
+		}
+		rt := exprText(fd.Recv.List[0].Type)
+		if strings.TrimPrefix(rt, "*") != recv {
+			continue
+		}
+		if fd.Type.TypeParams != nil {
+			continue
+		}
+		var ptypes, pnames []string
+		anon := 0
+		okNames := true
+		for _, p := range fd.Type.Params.List {
+			t := exprText(p.Type)
+			if len(p.Names) == 0 {
+				okNames = false
+			}
+			for _, n := range p.Names {
+				if n.Name == "_" {
+					okNames = false
+				}
+				ptypes = append(ptypes, t)
+				if _, isEll := p.Type.(*ast.Ellipsis); isEll {
+					pnames = append(pnames, n.Name+"...")
+				} else {
+					pnames = append(pnames, n.Name)
+				}
+			}
+			_ = anon
+		}
+		if !okNames {
+			continue
+		}
+		var rtypes []string
+		if fd.Type.Results != nil {
+			for _, r := range fd.Type.Results.List {
+				n := len(r.Names)
+				if n == 0 {
+					n = 1
+				}
+				for i := 0; i < n; i++ {
+					rtypes = append(rtypes, exprText(r.Type))
+				}
+			}
+		}
+		sig := "func(" + strings.Join(ptypes, ", ") + ")"
+		ret := "return "
+		if len(rtypes) > 0 {
+			sig += " (" + strings.Join(rtypes, ", ") + ")"
+		} else {
+			ret = ""
+		}
+		call := "zzvhook(" + strings.Join(pnames, ", ") + ")"
+		code := fmt.Sprintf("\n\tif zzvhook, ok := zzverif.Hooks[%q].(%s); ok {\n\t\t%s%s\n", recv+"."+fd.Name.Name, sig, ret, call)
+		if len(rtypes) == 0 {
+			code += "\t\treturn\n"
+		}
+		code += "\t}\n"
+		inserts = append(inserts, ins{fset.Position(fd.Body.Lbrace).Offset + 1, code})
+	}
+	if len(inserts) == 0 {
+		return fmt.Errorf("no methods of %s found in %s", recv, src)
+	}
+	for i := len(inserts) - 1; i >= 0; i-- {
+		text = text[:inserts[i].off] + inserts[i].code + text[inserts[i].off:]
+	}
+	gm, err := os.ReadFile(modDir + "/go.mod")
+	if err != nil {
+		return err
+	}
+	modPath := ""
+	for _, l := range strings.Split(string(gm), "\n") {
+		if strings.HasPrefix(l, "module ") {
+			modPath = strings.TrimSpace(strings.TrimPrefix(l, "module "))
+		}
+	}
+	i := strings.Index(text, "import (")
+	if i < 0 {
+		return fmt.Errorf("no import block in %s", src)
+	}
+	text = text[:i+len("import (")] + "\n\t\"" + modPath + "/pkg/zzverif\"" + text[i+len("import ("):]
+	return os.WriteFile(dst, []byte(text), 0644)
 }
